@@ -75,21 +75,36 @@ def _failed_names(path, errs):
     return names
 
 
-def run(ctx, target, generated, module, key, namespace, limit_quick=180, limit_thorough=900):
+def run(ctx, target, generated, module, key, namespace, limit_quick=180, limit_thorough=900, deps=()):
     """target: ssagen target; generated: file name under lean/Generated; module: e.g. "Props.C03Gen"; key: prefix of the
-    evidence entries; namespace: namespace of the theorems in the module."""
+    evidence entries; namespace: namespace of the theorems in the module; deps: generated files of OTHER targets that the
+    module imports, as (target, file name, lock file name) — they are regenerated from the same working tree first, each
+    under the lock of the check that owns it (lock order: this tie's lock, then the locks of deps in the given order, then
+    core's lean.lock; the owning checks take only their own lock and lean.lock, so the order is acyclic)."""
     out_path = os.path.join(core.LEAN, "Generated", generated)
     props_path = os.path.join(core.LEAN, module.replace(".", "/") + ".lean")
     os.makedirs(os.path.join(core.VERIF, ".work"), exist_ok=True)
     with open(os.path.join(core.VERIF, ".work", key + "gen.lock"), "w") as lk:
         fcntl.flock(lk, fcntl.LOCK_EX)
+        held = []
         try:
+            for dt, dfile, dlock in deps:
+                f = open(os.path.join(core.VERIF, ".work", dlock), "w")
+                fcntl.flock(f, fcntl.LOCK_EX)
+                held.append(f)
+                dinfo, dout = _ssagen(ctx.repo, os.path.join(core.LEAN, "Generated", dfile), dt)
+                if dinfo is None:
+                    ctx.lean_problems.append("ssagen could not translate the working tree (target %s): %s" % (dt, dout[-300:]))
             _run_locked(ctx, target, out_path, props_path, module, key, namespace,
                         limit_quick if ctx.tier == "quick" else limit_thorough)
         finally:
             if ctx.repo != "/repo" and os.path.isdir("/repo/xmath"):
-                # leave the tracked file as generated from the reference tree (it is committed, like Generated/Facts.lean)
+                # leave the tracked files as generated from the reference tree (they are committed, like Generated/Facts.lean)
                 _ssagen("/repo", out_path, target)
+                for dt, dfile, dlock in deps:
+                    _ssagen("/repo", os.path.join(core.LEAN, "Generated", dfile), dt)
+            for f in held:
+                f.close()
 
 
 def _register_all(ctx, props_path, namespace, guards, lean_names):
